@@ -11,7 +11,8 @@ namespace uci {
 
 struct GoRec {
     int sentIdx;                 // index into History::sent
-    bool ponder = false;
+    bool ponder = false;         // still pondering (cleared by ponderhit while the model is built)
+    bool ponderKw = false;       // the go command carried the ponder keyword
     bool infiniteKw = false;
     long long wtime = 0, btime = 0, winc = 0, binc = 0, movestogo = 0, depth = 0, nodes = 0, mate = 0, movetime = 0;
     bool modelInfinite = false;  // engine treats the search as infinite (no limit at all)
